@@ -486,11 +486,25 @@ def measured_filter(rows, T):
     return kept, stats
 
 
+def mc_brackets(ctx):
+    """Design level: TLC checks, over every interleaving of clock ticks with the six clock readings, that a
+    classification confirmed by the brackets is the scanner's own (MC_Brackets!Sound), and refutes the four
+    witnesses (both confirmations occur; in the unconfirmed zone both outcomes occur)."""
+    consts = {"TO": "3", "MaxT": "8"}
+    run_mc(ctx, "MC_Brackets", consts, [], ["Sound"], view=None, workers=4, tag="MC_Brackets")
+    for w in ("NeverConfirmedLate", "NeverConfirmedEarly", "NeverUnsettledLate", "NeverUnsettledEarly"):
+        cfg = "SPECIFICATION Spec\nCONSTANTS\n  TO = 3\n  MaxT = 8\nINVARIANT %s\nCHECK_DEADLOCK FALSE\n" % w
+        res = tlc(ctx.work, "MC_Brackets", cfg, workers=1, timeout=300, tag="MC_Brackets_" + w)
+        if "Invariant %s is violated" % w not in res.out:
+            raise ToolError("vacuity gate: MC_Brackets witness %s was not refuted:\n%s" % (w, tlc_text(res, 20)))
+
+
 def measured_clock_run(ctx, T=300):
     """Production configuration against the real clock with outcomes that depend on real time being SHORT,
     made sound by measurement (gen.real_time_measured, measured_filter): C13 (no report before the timeout,
     the report at the first poll after it) and C15 (another channel's traffic and polls do not move a
     channel's deadline) in the code that ships, where no scripted clock reaches."""
+    mc_brackets(ctx)
     rows = gen.real_time_measured(ctx.rng, ctx.q(14, 120), T=T)
     script = ctx.work.fresh("script_measured-clock_", "ndjson")
     write_ndjson(script, rows)
